@@ -55,7 +55,7 @@ TOTAL_CORE = (
     "core::iter::traits::iterator::Iterator::", "core::iter::adapters::", "<core::iter::adapters::", "<core::str::iter::", "<core::slice::iter::",
     "<T as core::convert::", "<char as core::", "<str as core::cmp::PartialEq", "<&A as core::cmp::PartialEq", "core::cmp::", "<&'a ",
     "core::fmt::", "core::convert::", "<core::ops::range::", "core::str::<impl str>::", "core::char::methods::<impl char>::",
-    "core::num::<impl ", "core::mem::replace", "<bool>::then_some", "bool::then_some", "core::bool::<impl bool>::then_some",
+    "core::num::<impl ", "core::mem::replace", "<I as core::iter::traits::collect::IntoIterator>::into_iter", "<u64 as core::ops::bit::", "u64::", "u8::", "u16::", "usize::", "<bool>::then_some", "bool::then_some", "core::bool::<impl bool>::then_some",
 )
 PARTIAL_CORE = ("::unwrap", "::expect", "::split_at", "::index", "::index_mut", "slice::index", "::unwrap_unchecked", "::get_unchecked",
                 "::nth", "::step_by", "::chunks", "::windows", "::from_utf8_unchecked", "::split_at_mut", "::copy_from_slice", "::swap", "::remove", "::insert")
@@ -74,7 +74,7 @@ def core_callee_ok(n):
     return False
 
 
-def parser_callees(ctx, f, roots, tag):
+def parser_callees(ctx, f, roots, tag, only_files=None):
     """every core function a parser reaches must be on the total list"""
     from .common import reachable_bodies
     from ..facts import callee_name
@@ -84,6 +84,8 @@ def parser_callees(ctx, f, roots, tag):
         if documented(k):
             continue
         b = f.bodies[k]
+        if only_files and not any(b.file.endswith(x) for x in only_files):
+            continue
         for bb, t in b.calls():
             cn = callee_name(t)
             if not cn or cn in f.bodies or cn.startswith("cozy_chess"):
